@@ -61,10 +61,15 @@ def enum_units(tier, seed):
         for fn in sorted(os.listdir(sdir)):
             if fn.endswith(".s"):
                 units.append({"t": "sample", "file": fn, "seeds": [seed * 100 + i for i in range(16 if tier == "quick" else 200)], "tier": tier})
+    for n, pad in ((4000, 0), (300, 4), (9000, 0)):
+        units.append({"t": "longinc", "n": n, "pad": pad})
     return {"units": units, "exhaustive": False}
 
 
 def unit_cases(unit):
+    if unit.get("t") == "longinc":
+        yield unit
+        return
     with open(os.path.join(REPO_ROOT, "tests", "samples", unit["file"]), encoding="utf-8") as f:
         text = f.read()
     for s in unit["seeds"]:
@@ -117,6 +122,25 @@ def _same(a, b):
 
 
 def run_case(case) -> Outcome:
+    if case.get("t") == "longinc":
+        # a run of statements moved into an included file of more than 64 KiB / 128 KiB (many statements, or few statements
+        # and a lot of comment / blank-line padding)
+        n, pad = case["n"], case["pad"]
+        body = "".join(f"lb_i{i}:\n.dw lb_i{i} & 0xffff\n" + ("; " + "x" * 60 + "\n\n") * pad for i in range(n))
+        inline = "*=0x018000\n.db 1\n" + body + "lb_after:\n.dl lb_after\n"
+        moved = "*=0x018000\n.db 1\n.include 'big.s'\nlb_after:\n.dl lb_after\n"
+        a = driver.assemble_mem(inline)
+        b = driver.assemble_mem(moved, files={"big.s": body})
+        out = Outcome(evals=2, nontrivial=True, labels=["long-include"])
+        out.sample = {"statements": 2 * n, "include_characters": len(body)}
+        if not a.accepted:
+            out.skip = "inline version rejected"
+        elif not b.accepted:
+            out.bad("long-include:rejected", case, f"the version with the run in an included file of {len(body)} characters is rejected: {b['exc']} {b.failure_text[:200]}")
+        elif driver.flatten(a["blocks"]) != driver.flatten(b["blocks"]) or sorted(a["labels"]) != sorted(b["labels"]):
+            out.bad("long-include:differs", case, f"moving {2 * n} statements into an included file of {len(body)} characters changes the result: "
+                    f"{sum(len(d) for _, d in a['blocks'])} bytes / {len(a['labels'])} labels inline, {sum(len(d) for _, d in b['blocks'])} bytes / {len(b['labels'])} labels included")
+        return out
     if case.get("t") == "sample":
         rng = random.Random(case["seed"])
         base_src = PRELUDE + case["text"]
